@@ -446,7 +446,7 @@ class GeminiServerProtocol(asyncio.Protocol):
             # Send the response
             self._send_response(response)
 
-        except Exception as e:
+        except (Exception, asyncio.CancelledError) as e:
             logger.error(
                 "async_handler_error",
                 client_ip=client_ip,
@@ -480,7 +480,7 @@ class GeminiServerProtocol(asyncio.Protocol):
             # Middleware allowed request - continue routing
             self._route_request(request, client_ip)
 
-        except Exception as e:
+        except (Exception, asyncio.CancelledError) as e:
             logger.error(
                 "middleware_error",
                 client_ip=client_ip,
@@ -651,7 +651,7 @@ class GeminiServerProtocol(asyncio.Protocol):
 
             self._start_titan_upload(client_ip)
 
-        except Exception as e:
+        except (Exception, asyncio.CancelledError) as e:
             logger.error(
                 "middleware_error",
                 client_ip=client_ip,
@@ -713,7 +713,7 @@ class GeminiServerProtocol(asyncio.Protocol):
 
             self._send_response(response)
 
-        except Exception as e:
+        except (Exception, asyncio.CancelledError) as e:
             logger.error(
                 "titan_upload_error",
                 client_ip=client_ip,
